@@ -186,10 +186,16 @@ theorem pi_mail (s : State) (m : Msg) (h : isNewMsg m = false) : pi (sendMsg s m
   pi_eq (s := s) (s' := sendMsg s m) rfl rfl rfl rfl (newIds_append _ _ h) rfl
 
 -- ------------------------------------------------------------------ worker
-@[simp] theorem pi_sendFinish (s : State) (w : Nat) (err : Option WErr) : pi (sendFinish s w err) = pi s := by
-  unfold sendFinish
+@[simp] theorem pi_sendFinishNow (s : State) (w : Nat) (err : Option WErr) : pi (sendFinishNow s w err) = pi s := by
+  unfold sendFinishNow
   rw [pi_setPhase]
   exact pi_mail s _ rfl
+
+@[simp] theorem pi_sendFinish (s : State) (w : Nat) (err : Option WErr) : pi (sendFinish s w err) = pi s := by
+  unfold sendFinish
+  split
+  · rfl
+  · exact pi_sendFinishNow s w err
 
 @[simp] theorem pi_executeQuery (s : State) (w : Nat) (wk : Worker) (err : Option WErr) :
     pi (executeQuery s w wk err) = pi s := by
@@ -276,6 +282,7 @@ theorem pi_wstep {s s' : State} {w pick : Nat} (h : wstep s w pick = some s') : 
     · split at h
       · cases h; simp
       · cases h; simp
+    · cases h; simp
     · cases h; simp
     · cases h; simp
     · simp only at h
